@@ -214,6 +214,7 @@ func init() {
 			{Scenario: "fec-stream", Stratum: "", Quick: 800, Thorough: 30000, PerJob: 32},
 			{Scenario: "xfer", Stratum: "mismatch", Quick: 300, Thorough: 8000, PerJob: 8},
 			{Scenario: "xfer", Stratum: "mismatch-targeted", Quick: 60, Thorough: 600, PerJob: 8},
+			{Scenario: "xfer", Stratum: "mismatch-converge", Quick: 120, Thorough: 3000, PerJob: 8},
 		},
 		QuickBudget: 60 * time.Second, ThoroughBudget: 25 * time.Minute,
 		Rule: "evaluations = seeded simulated runs. Codec level ('fec-stream'): sender ratio (d1,p1), receiver ratio (d2,p2) drawn small (1..4 each, 'mismatch-small') or up to d+p=255, any starting id (including ids >= 2^31 and runs crossing the wrap value) and phase, seeded loss/duplication/reordering/parity skipping before convergence, and the targeted pattern that drops exactly the packets whose type contradicts the receiver's expectation; after an uninterrupted run of 258+2(d1+p1) packets the decoder's effective ratio (hook H1) must be the sender's, from then on soundness and completeness of C07 are demanded and the ratio must stay; stratum '' runs matching ratios and demands that no pattern of genuine packets ever changes the ratio or suspends decoding. Session level ('xfer/mismatch*'): the two ends use different ratios (or FEC at one end only) under loss; the stream oracle decides 'delivers the stream intact'. Non-trivial = a fault fired and packets reached the decoder; distinct = distinct event-log hashes",
